@@ -10,6 +10,7 @@
    correspondence run showing that the simulators factor through this model. *)
 From Coq Require Import List Bool Arith Sorted Reals QArith.
 From FDAV Require Import Base.Num Base.Vec Model.Rng Model.Simul Lemmas.Rng Lemmas.Simul.
+From FDAV Require Import Gen.Eigenvalues Lemmas.GenEigenvalues.
 Import ListNotations.
 Local Open Scope nat_scope.
 
@@ -177,3 +178,26 @@ Example C19_example :
   eig_linear opsQ 3 = [1#1; 2#3; 1#3]%Q /\
   brownian_accepts opsQ (1#100000) (1#100000000) (Some [0#1; 1#10; 3#10; 1#1]%Q) = false.
 Proof. vm_compute. repeat split. Qed.
+
+(* ---------- the eigenvalue sequences as TRANSLATED from /repo/FDApy/simulation/karhunen.py on this run ----------
+   (Gen/Eigenvalues.v is regenerated by harness/reflect.py on every build: these statements are about what the source
+   says now.)  Whatever name _simulate_eigenvalues accepts, for whatever n, the sequence it returns has n entries,
+   all positive, non-increasing; the six documented names are accepted for every n >= 1 and give the family of that
+   name; n < 1 is rejected. *)
+From Coq Require Import String.
+Theorem C19_source_eigenvalues_pos_noninc : forall (name : String.string) (n : nat) (vals : list R),
+  gen_eig_dispatch name n = Some vals -> pos_noninc vals /\ List.length vals = n.
+Proof. exact gen_eig_dispatch_pos_noninc. Qed.
+Print Assumptions C19_source_eigenvalues_pos_noninc.
+Theorem C19_source_eigenvalues_names : forall n, 1 <= n ->
+  gen_eig_dispatch "linear"%string n = Some (eig_linear opsR n) /\
+  gen_eig_dispatch "exponential"%string n = Some (eig_exponential n) /\
+  gen_eig_dispatch "quadratic"%string n = Some (eig_quadratic opsR n) /\
+  gen_eig_dispatch "inverse"%string n = Some (eig_inverse opsR n) /\
+  gen_eig_dispatch "sqrt"%string n = Some (eig_sqrt n) /\
+  gen_eig_dispatch "wiener"%string n = Some (eig_wiener n).
+Proof. exact gen_eig_dispatch_names. Qed.
+Print Assumptions C19_source_eigenvalues_names.
+Theorem C19_source_eigenvalues_reject_zero : forall name, gen_eig_dispatch name 0 = None.
+Proof. exact gen_eig_dispatch_rejects_zero. Qed.
+Print Assumptions C19_source_eigenvalues_reject_zero.
